@@ -14,7 +14,7 @@ import (
 func init() {
 	register(&Pack{ID: "C05", Run: runC05, Meta: core.Meta{
 		Level:       "other",
-		Explanation: "For every sequential stage of package pipe the single goroutine it spawns is discovered (target of its go statement) and engine P extracts the acyclic paths from the loop head. Each path of one loop iteration is an ordered event list with branch polarities; the per-stage constraint is checked on every such path (Map: one Apply of the received element, then exactly one send of its result; Filter: send iff take and no error; TakeWhile: exit without send on the first failing element; Take: exactly one send then exactly one decrement of the budget, exit at zero, and by interval analysis the budget is >= 1 at every receive; Partition: exactly one send on the left output iff the predicate holds else on the right; Fold: accumulator from m.Empty(), one Combine(acc, x) per element, one deferred send of the accumulator then close; ForEach/Void: one/no visit; Seq/ToSeq: one send/append per element in index order). Single goroutine + channel FIFO + exactly-once-per-iteration gives the list image in input order for every capacity and interleaving (paper argument); schedules are not enumerated - they are irrelevant to the decided shape.",
+		Explanation: "For every sequential stage of package pipe the single goroutine it spawns is discovered (target of its go statement) and engine P extracts the acyclic paths from the loop head. Each path of one loop iteration is an ordered event list with branch polarities; the per-stage constraint is checked on every such path (Map: one Apply of the received element, then exactly one send of its result; Filter: send iff take and no error; TakeWhile: exit without send on the first failing element; Take: exactly one send then exactly one decrement of the budget, exit at zero, and by interval analysis the budget is >= 1 at every receive; Partition: exactly one send on the left output iff the predicate holds else on the right; Fold: accumulator from m.Empty(), one Combine(acc, x) per element, one deferred send of the accumulator then close; ForEach/Void: one/no visit; Seq/ToSeq: one send/append per element in index order). Single goroutine + channel FIFO + exactly-once-per-iteration gives the list image in input order for every capacity and interleaving (paper argument); schedules are not enumerated - they are irrelevant to the decided shape. The wrappers built by Lift/Pure/LiftF/Try/TryF are checked to apply the user's function exactly once per call and return its result unchanged (shared with C07); Pure's closure is analysed as re-entrant - what an earlier call left in its captured variables is unknown.",
 		RuleText:    "one obligation per (stage, rule); iteration paths of each stage goroutine are enumerated exhaustively",
 		Assumptions: []string{"Take's n is >= 0 (as the property states)", "the stage function value is not nil"},
 		TrustedBase: []string{"go/ssa", "path engine P", "interval analysis D-iii", "Go channel FIFO semantics"},
